@@ -1,27 +1,69 @@
 #!/usr/bin/env python3
-"""Apply each seeded change under /verif/seeded/*/patch.diff to /repo, run the property's quick check, undo it.
-Usage: tools/run_seeded.py [ID-prefix ...]   (writes seeded/RESULTS.json)"""
-import json, subprocess, sys, time
+"""Apply each seeded change under /verif/seeded/*/patch.diff to the tree, run the property's quick check, undo it.
+Usage: tools/run_seeded.py [--jobs N] [ID-prefix ...]   (writes seeded/RESULTS.json)
+Without --jobs the patch is applied to /repo itself (transiently); with --jobs N, N scratch worktrees of /repo's HEAD are
+created under /tmp (compiled extension modules copied in), each patch is applied there and the check runs with --repo <worktree>;
+the worktrees are removed at the end."""
+import json, subprocess, sys, time, shutil
+from concurrent.futures import ThreadPoolExecutor
 from pathlib import Path
 V = Path(__file__).resolve().parent.parent
+args = sys.argv[1:]
+jobs = 0
+if '--jobs' in args:
+	i = args.index('--jobs'); jobs = int(args[i + 1]); del args[i:i + 2]
+sel = args
+todo = [d for d in sorted((V / 'seeded').iterdir()) if (d / 'patch.diff').exists() and (not sel or any(d.name.startswith(s) for s in sel))]
 res = {}
-sel = sys.argv[1:]
-for d in sorted((V / 'seeded').iterdir()):
-	if not (d / 'patch.diff').exists():
-		continue
-	if sel and not any(d.name.startswith(s) for s in sel):
-		continue
+
+
+def run_one(d, tree):
 	pid = d.name.split('_')[0]
-	assert subprocess.run(['git', '-C', '/repo', 'status', '--porcelain', '--untracked-files=no'], capture_output=True, text=True).stdout.strip() == '', '/repo not clean'
-	subprocess.run(['git', '-C', '/repo', 'apply', str(d / 'patch.diff')], check=True)
+	assert subprocess.run(['git', '-C', tree, 'status', '--porcelain', '--untracked-files=no'], capture_output=True, text=True).stdout.strip() == '', f'{tree} not clean'
+	subprocess.run(['git', '-C', tree, 'apply', str(d / 'patch.diff')], check=True)
 	try:
 		t0 = time.time()
-		p = subprocess.run([str(V / 'check'), pid, '--tier', 'quick', '--evidence-dir', '/tmp/ev_seeded'], capture_output=True, text=True, cwd=V)
+		cmd = [str(V / 'check'), pid, '--tier', 'quick', '--evidence-dir', '/tmp/ev_seeded' + (tree.replace('/', '_') if tree != '/repo' else '')]
+		if tree != '/repo':
+			cmd += ['--repo', tree]
+		p = subprocess.run(cmd, capture_output=True, text=True, cwd=V)
 		lines = [l for l in p.stdout.splitlines() if l.startswith(('VIOLATION', 'UNDECIDED', 'MACHINERY', '  failed obligation', 'KNOWN'))]
 		res[d.name] = {'property': pid, 'exit': p.returncode, 'seconds': round(time.time() - t0, 1), 'lines': lines[:8]}
-		print(d.name, 'exit', p.returncode, lines[-1] if lines else '')
+		print(d.name, 'exit', p.returncode, lines[-1] if lines else '', flush=True)
 	finally:
-		subprocess.run(['git', '-C', '/repo', 'checkout', '--', '.'], check=True)
+		subprocess.run(['git', '-C', tree, 'checkout', '--', '.'], check=True)
+		subprocess.run(['git', '-C', tree, 'clean', '-fdq', 'src'], check=False)      # files a patch added
+
+
+if not jobs:
+	for d in todo:
+		run_one(d, '/repo')
+else:
+	trees = []
+	for k in range(jobs):
+		t = f'/tmp/wt_seed_{k}'
+		subprocess.run(['git', '-C', '/repo', 'worktree', 'add', '--detach', '-q', t, 'HEAD'], check=True)
+		for so in Path('/repo/src').rglob('*.so'):
+			shutil.copy(so, Path(t) / so.relative_to('/repo'))
+		trees.append(t)
+	try:
+		import queue
+		free = queue.Queue()
+		for t in trees:
+			free.put(t)
+
+		def work(d):
+			t = free.get()
+			try:
+				run_one(d, t)
+			finally:
+				free.put(t)
+		with ThreadPoolExecutor(jobs) as ex:
+			list(ex.map(work, todo))
+	finally:
+		for t in trees:
+			subprocess.run(['git', '-C', '/repo', 'worktree', 'remove', '--force', t], check=False)
+		subprocess.run(['git', '-C', '/repo', 'worktree', 'prune'], check=False)
 old = {}
 if (V / 'seeded' / 'RESULTS.json').exists():
 	old = json.loads((V / 'seeded' / 'RESULTS.json').read_text())
